@@ -57,6 +57,7 @@ class World:
         self.connect_outcome = "inprog"
         self.hs_outcome = "want"
         self.send_cap = None
+        self.send_fail = None
 
     def new_core(self, **kw):
         c = Core(self, len(self.socks), **kw)
@@ -173,6 +174,9 @@ class FakeSock:
         raise OSError(_errno.EIO, "Input/output error")
 
     def send(self, data):
+        fail = self.core.world.send_fail     # the peer is gone: every send fails with this errno
+        if fail:
+            raise OSError(fail, "send failed")
         cap = self.core.world.send_cap      # None: the kernel takes everything; 0: would block; n: takes at most n
         if cap is None:
             n = len(data)
@@ -297,6 +301,16 @@ def directed():
         # established and pending connections whose peers reset them: shutdown() raises at close time
         {"kind": "tls", "evs": [["reopen", False], ["connects", [C(0, False, ["ok"]), C(1, False, ["ok"]), C(2, False, ["want"])]],
                                 ["recv", 0, "reset"], ["recv", 1, "eof"], ["accepts", [C(3, "gone")]], ["close"]]},
+        # established connections with output still queued whose peers are gone (send() fails with EPIPE / ECONNRESET /
+        # EIO) when the server closes, reopens, closes or removes one: sockets are released whatever send does
+        # (seeded change C11-15 witness)
+        {"kind": "server", "txfail": 32, "evs": [["reopen", False], ["axes", [C(0), C(1), C(2)]], ["close"]]},
+        {"kind": "server", "txfail": 32, "evs": [["reopen", False], ["axes", [C(0), C(1)]], ["closeix", 0], ["removeix", 1],
+                                                  ["axes", [C(2)]], ["reopen", False], ["close"]]},
+        {"kind": "tls", "txfail": 32, "evs": [["reopen", False], ["connects", [C(0, False, ["ok"]), C(1, False, ["ok"])]],
+                                               ["close"]]},
+        {"kind": "server", "txfail": 104, "evs": [["reopen", False], ["axes", [C(0), C(1)]], ["close"]]},
+        {"kind": "server", "txfail": 5, "evs": [["reopen", False], ["axes", [C(0), C(1)]], ["recv", 0, "eof"], ["close"]]},
         # malformed accepted socket and queued axes
         {"kind": "server", "evs": [["reopen", False], ["axes", [C(0), C(1, True), C(2)]], ["close"]]},
         {"kind": "server", "evs": [["reopen", False], ["accepts", [C(0), C(1)]], ["close"], ["reopen", False],
@@ -383,6 +397,9 @@ def _gen_server(rng, tls):
     bl = rng.choice([0, 0, 1, 2, 3])
     if bl:
         case["bl"] = bl
+    tf = rng.choice([0, 0, _errno.EPIPE, _errno.EPIPE, _errno.ECONNRESET, _errno.EIO, _errno.EAGAIN])
+    if tf:
+        case["txfail"] = tf
     return case
 
 
@@ -456,6 +473,13 @@ def _run_server(case):
                 inix = {ix.cs.core.id for ix in srv.ixes.values() if ix.cs}
                 ssid = {srv.ss.core.id} if srv.ss else set()
                 outside.append(sorted(set(world.open_ids()) - inix - ssid))
+            if case.get("txfail") and op in ("reopen", "close", "closeix", "removeix"):
+                # every established connection has output queued and its peer is gone (send() fails with that errno):
+                # closing must release the sockets whatever a send would do
+                for ix in srv.ixes.values():
+                    if ix.cs:
+                        ix.tx(b"unsent")
+                world.send_fail = int(case["txfail"])
             if op == "reopen":
                 world.bindfail = bool(ev[1])
                 r = _res(srv.reopen)
@@ -483,6 +507,7 @@ def _run_server(case):
                 r = _res(srv.close)
             else:
                 raise ValueError(op)
+            world.send_fail = None
             results.append(r)
             opens.append(world.open_ids())
             if op == "close":
@@ -666,7 +691,8 @@ def distribution(cases, obs):
     for c in cases:
         if c.get("bl") and any(e[0] in ("axes", "accepts", "connects") and len(e[1]) > c["bl"] for e in c["evs"]):
             over += 1
-    return {"kinds": kinds, "small_backlog": sum(1 for c in cases if c.get("bl")), "burst_larger_than_backlog": over}
+    return {"kinds": kinds, "output_queued_and_send_failing_at_close": sum(1 for c in cases if c.get("txfail")),
+            "small_backlog": sum(1 for c in cases if c.get("bl")), "burst_larger_than_backlog": over}
 
 
 # --------------------------------------------------------------------------- real-kernel run (extra)
